@@ -1,5 +1,7 @@
 package fpgo
 
+// vf:instrument
+
 import (
 	"errors"
 	"reflect"
@@ -470,4 +472,36 @@ func vh_C20_CompData() {
 	if ok {
 		vfReach("end")
 	}
+}
+
+// concurrent Calls racing with MarkDone: once a Call's function has marked the curry done, no later Call may invoke the
+// function again or change Result, however the Calls interleave
+func vh_C20_CurryDefConcurrentMarkDone() {
+	var mu sync.Mutex
+	invocations := 0
+	var firstSeen []int
+	c := CurryNewGenerics(func(c *CurryDef[int, int], args ...int) int {
+		mu.Lock()
+		invocations++
+		if invocations == 1 {
+			firstSeen = append([]int{}, args...)
+		}
+		mu.Unlock()
+		c.MarkDone() // done after the first invocation
+		return len(args)
+	})
+	a, b := vfInt("a"), vfInt("b")
+	vfAssume(a != b)
+	var wg sync.WaitGroup
+	wg.Add(2)
+	go func() { c.Call(a); wg.Done() }()
+	go func() { c.Call(b); wg.Done() }()
+	wg.Wait()
+	vfAssert("function-invoked-once-then-frozen", invocations == 1)
+	vfAssert("isdone", c.IsDone())
+	vfAssert("result-frozen", c.Result() == 1)
+	vfAssert("first-call-saw-one-argument", len(firstSeen) == 1)
+	c.Call(vfInt("late"))
+	vfAssert("later-call-is-a-no-op", invocations == 1 && c.Result() == 1)
+	vfReach("end")
 }
